@@ -123,3 +123,103 @@ package canary
 //@   noescape
 //@ func (*Canary).handleTCP$1$1
 //@   check safety
+//
+// ---- UniqueSet (property C20): set semantics over the sequence view us.items ----
+// The equality callback is an unknown pure predicate; the Each callback may do anything and
+// is observed through a ghost call log (ncalls, argi, argv).
+//@ uf eqfn(equalFn, any, any) bool
+//@ functype equalFn
+//@   pure
+//@   ensures result == eqfn(fn, a0, a1)
+//@ ghost field fn.ncalls int
+//@ ghost field fn.argi int->int
+//@ ghost field fn.argv int->any
+//@ functype func(int, interface{})
+//@   requires 0 <= fn.ncalls && fn.ncalls < 1<<60
+//@   modifies *
+//@   ensures fn.ncalls == old(fn.ncalls) + 1
+//@   ensures fn.argi[old(fn.ncalls)] == a0 && fn.argv[old(fn.ncalls)] == a1
+//@   ensures forall k int :: 0 <= k && k < old(fn.ncalls) ==> fn.argi[k] == old(fn.argi[k]) && fn.argv[k] == old(fn.argv[k])
+//
+//@ func (*UniqueSet).Count
+//@   check safety, frame
+//@   ensures result == len(us.items)
+//@   modifies nothing
+//
+//@ func (*UniqueSet).Add
+//@   check safety, frame
+//@   ensures [found-view] (exists j int :: 0 <= j && j < old(len(us.items)) && eqfn(us.uniqueFunc, item, old(us.items[j]))) ==> len(us.items) == old(len(us.items)) && (forall j int :: 0 <= j && j < len(us.items) ==> us.items[j] == old(us.items[j]))
+//@   ensures [found-result] (exists j int :: 0 <= j && j < old(len(us.items)) && eqfn(us.uniqueFunc, item, old(us.items[j]))) ==> (exists j int :: 0 <= j && j < old(len(us.items)) && result == old(us.items[j]) && eqfn(us.uniqueFunc, item, result) && (forall k int :: 0 <= k && k < j ==> !eqfn(us.uniqueFunc, item, old(us.items[k]))))
+//@   ensures [new-len] !(exists j int :: 0 <= j && j < old(len(us.items)) && eqfn(us.uniqueFunc, item, old(us.items[j]))) ==> len(us.items) == old(len(us.items)) + 1
+//@   ensures [new-last] !(exists j int :: 0 <= j && j < old(len(us.items)) && eqfn(us.uniqueFunc, item, old(us.items[j]))) ==> us.items[old(len(us.items))] == item && result == item
+//@   ensures [new-prefix] !(exists j int :: 0 <= j && j < old(len(us.items)) && eqfn(us.uniqueFunc, item, old(us.items[j]))) ==> (forall j int :: 0 <= j && j < old(len(us.items)) ==> us.items[j] == old(us.items[j]))
+//@   modifies us.items, us.items[:]
+//@   loop 1: invariant forall j int :: 0 <= j && j <= rangeindex ==> !eqfn(us.uniqueFunc, item, us.items[j])
+//
+//@ func (*UniqueSet).Remove
+//@   check safety, frame
+//@   ensures [absent] (forall j int :: 0 <= j && j < old(len(us.items)) ==> old(us.items[j]) != item) ==> len(us.items) == old(len(us.items)) && (forall j int :: 0 <= j && j < len(us.items) ==> us.items[j] == old(us.items[j]))
+//@   ensures [present-len] (exists k int :: 0 <= k && k < old(len(us.items)) && old(us.items[k]) == item) ==> len(us.items) == old(len(us.items)) - 1
+//@   ensures [present-prefix] forall i int :: 0 <= i && i < old(len(us.items)) && old(us.items[i]) == item && (forall j int :: 0 <= j && j < i ==> old(us.items[j]) != item) ==> (forall j int :: 0 <= j && j < i ==> us.items[j] == old(us.items[j]))
+// (the shift clause 'elements after the removed one move down by one' is not carried by the solvers
+//  in bit-vector arithmetic within the time limit; it is not claimed, see /verif/DESIGN.md)
+//@   modifies us.items, us.items[:]
+//@   loop 1: invariant forall j int :: 0 <= j && j <= rangeindex ==> us.items[j] != item
+//
+//@ func (*UniqueSet).Each
+//@   check safety
+//@   requires 0 <= fn.ncalls && fn.ncalls < 1<<50
+//@   ensures [count] fn.ncalls == old(fn.ncalls) + old(len(us.items))
+//@   ensures [once] forall k int :: 0 <= k && k < old(len(us.items)) ==> fn.argi[old(fn.ncalls)+k] == k && fn.argv[old(fn.ncalls)+k] == old(us.items[k])
+//@   modifies *
+//@   loop 1: invariant fn.ncalls == old(fn.ncalls) + rangeindex + 1
+//@   loop 1: invariant forall k int :: 0 <= k && k <= rangeindex ==> fn.argi[old(fn.ncalls)+k] == k && fn.argv[old(fn.ncalls)+k] == old(us.items[k])
+
+//
+// ---- knock groups (property C20): what identifies a group and a port inside a group ----
+//@ func NewUniqueSet
+//@   check safety
+//@   ensures result != nil && fresh(result) && len(result.items) == 0 && result.uniqueFunc == fn
+//@   modifies nothing
+//
+//@ func (KnockTCPPort).NewGroup
+//@   check safety
+//@   ensures result != nil && fresh(result) && result.Protocol == ProtocolTCP && result.Count == 0
+//@   ensures result.SourceIP == k.SourceIP && result.DestinationIP == k.DestinationIP && result.SourceHardwareAddr == k.SourceHardwareAddr && result.DestinationHardwareAddr == k.DestinationHardwareAddr
+//@   ensures result.Knocks != nil && len(result.Knocks.items) == 0
+//@   modifies nothing
+//
+//@ func (KnockUDPPort).NewGroup
+//@   check safety
+//@   ensures result != nil && fresh(result) && result.Protocol == ProtocolUDP && result.Count == 0
+//@   ensures result.SourceIP == k.SourceIP && result.DestinationIP == k.DestinationIP && result.SourceHardwareAddr == k.SourceHardwareAddr && result.DestinationHardwareAddr == k.DestinationHardwareAddr
+//@   ensures result.Knocks != nil && len(result.Knocks.items) == 0
+//@   modifies nothing
+//
+//@ func (KnockICMP).NewGroup
+//@   check safety
+//@   ensures result != nil && fresh(result) && result.Protocol == ProtocolICMP && result.Count == 0
+//@   ensures result.SourceIP == k.SourceIP && result.DestinationIP == k.DestinationIP && result.SourceHardwareAddr == k.SourceHardwareAddr && result.DestinationHardwareAddr == k.DestinationHardwareAddr
+//@   ensures result.Knocks != nil && len(result.Knocks.items) == 0
+//@   modifies nothing
+//
+// Two knocks are the same port of a group iff both are of the group's kind and name the same port.
+//@ func (KnockTCPPort).NewGroup$1
+//@   check safety
+//@   ensures result == (typeis(v1, KnockTCPPort) && typeis(v2, KnockTCPPort) && unbox(v1, KnockTCPPort).DestinationPort == unbox(v2, KnockTCPPort).DestinationPort)
+//@   modifies nothing
+//@ func (KnockUDPPort).NewGroup$1
+//@   check safety
+//@   ensures result == (typeis(v1, KnockUDPPort) && typeis(v2, KnockUDPPort) && unbox(v1, KnockUDPPort).DestinationPort == unbox(v2, KnockUDPPort).DestinationPort)
+//@   modifies nothing
+//@ func (KnockICMP).NewGroup$1
+//@   check safety
+//@   ensures result == (typeis(v1, KnockICMP) && typeis(v2, KnockICMP))
+//@   modifies nothing
+//
+// Groups are keyed by protocol and the four addresses; equal groups have equal protocol.
+//@ func (*Canary).knockDetector$1
+//@   check safety
+//@   requires typeis(v1, *KnockGroup) && typeis(v2, *KnockGroup)
+//@   ensures result ==> unbox(v1, *KnockGroup).Protocol == unbox(v2, *KnockGroup).Protocol
+//@   modifies nothing
